@@ -8,6 +8,8 @@ import MosnVerif.Lemmas.H2Lock
 import MosnVerif.Lemmas.DispatchLoop
 import MosnVerif.Model.DispatchCodec
 import MosnVerif.Lemmas.PoolRecover
+import MosnVerif.Lemmas.H2ReadLoop
+import MosnVerif.Model.DubboMeta
 /-!
 # C08 — malformed input is contained (property theorems only)
 
@@ -357,5 +359,143 @@ example : (outcomes (fun _ => ⟨false, false⟩) 0
     [[("work", "handoff"), ("default", "none")], [("work", "handoff"), ("sem", "spawn"), ("default", "bare")]]).map survives
     = [false] := by decide
 end recover
+
+/-! ## The HTTP/2 read path: `MFramer.ReadFrame` with checked access and the two `Dispatch` loops
+(slice bounds, indices, offsets and the loop structure regenerated: Gen/C08H2Loop; length tests: Gen/FrameLen) -/
+section h2loop
+open MosnVerif.Model.H2ReadLoop MosnVerif.Lemmas.H2ReadLoop
+
+/-- both loops as written return after ErrAGAIN and after a connection error (which handleFrame → handleError has seen);
+they go round again after a frame and after a StreamError -/
+theorem h2_policy_safe : srvPolicy.Safe ∧ cliPolicy.Safe ∧
+    srvPolicy.againFrame = true ∧ cliPolicy.againFrame = true ∧ srvPolicy.againStream = true ∧ cliPolicy.againStream = true ∧
+    MosnVerif.Gen.C08H2Loop.srvHandledConnErr = true ∧ MosnVerif.Gen.C08H2Loop.cliHandledConnErr = true ∧
+    MosnVerif.Gen.C08H2Loop.srvHandledStreamErr = true ∧ MosnVerif.Gen.C08H2Loop.cliHandledStreamErr = true := by decide
+
+/-- **h2_readframe_no_overread**: for EVERY buffer content, EVERY offset, every read limit and every behaviour of the
+payload parsers / header-block validation: `readFrameHeader` (slice `data.Bytes()[off:]`, the indices 0..4, the 4-byte
+read at 5), the payload slice of `ReadFrame` and every nested read of `readMetaFrame` (any start offset, any stream, any
+number of CONTINUATION frames) stay inside the buffered bytes (checked access never answers `oob`); and a top-level
+`ReadFrame` that delivers a frame or a StreamError drained at least one whole frame header (9 bytes) and never more than
+was buffered. -/
+theorem h2_readframe_no_overread (mx : Nat) (o : Orc) (b : List UInt8) :
+    (∀ off, readHdr b off ≠ .oob ∧ one mx o b off ≠ .oob) ∧
+    (∀ off0 sid fuel ms, contLoop mx o b off0 sid fuel ms ≠ .oob) ∧
+    readFrame mx o b ≠ .oob ∧
+    (∀ k, (readFrame mx o b = .frame k ∨ readFrame mx o b = .stream k) → 9 ≤ k ∧ k ≤ b.length) :=
+  ⟨fun off => ⟨(readHdr_spec b off).1, (one_spec mx o b off).1⟩,
+   fun off0 sid fuel ms => (contLoop_spec mx o b off0 sid fuel ms).1,
+   (readFrame_spec mx o b).1, (readFrame_spec mx o b).2⟩
+
+/-- **h2_dispatch_terminates**: `serverStreamConnection.Dispatch` and `clientStreamConnection.Dispatch`, for EVERY read
+buffer and EVERY (possibly stateful) decoder whose frames and stream errors consume ≥ 9 buffered bytes, return — after
+at most `|buffer|/9 + 1` Decode calls, never enlarging the buffer (small-step loop without fuel; the buffer length is
+the variant). -/
+theorem h2_dispatch_terminates (p : Policy) (hp : p = srvPolicy ∨ p = cliPolicy) (dec : Nat → List UInt8 → DStep)
+    (hd : Progress dec) (b : List UInt8) :
+    ∃ c', Returns p dec ⟨b, 0⟩ c' ∧ c'.calls ≤ b.length / 9 + 1 ∧ c'.buf.length ≤ b.length := by
+  have hs : p.Safe := by rcases hp with rfl | rfl; exact h2_policy_safe.1; exact h2_policy_safe.2.1
+  obtain ⟨c', hr, _, hc, hl⟩ := run_terminates p dec hs hd (b.length / 9) ⟨b, 0⟩ (by simp only; omega)
+  exact ⟨c', run_sound _ _ _ _ _ hr, by simpa using hc, hl⟩
+
+/-- … in particular with the framer itself as the decoder (`clientCodec.Decode`; `serverCodec.Decode` behind the
+preface): every read limit, every behaviour of the parsers and of the header-block validation -/
+theorem h2_dispatch_terminates_framer (p : Policy) (hp : p = srvPolicy ∨ p = cliPolicy) (mx : Nat) (o : Orc) (b : List UInt8) :
+    ∃ c', Returns p (frameDec mx o) ⟨b, 0⟩ c' ∧ c'.calls ≤ b.length / 9 + 1 ∧ c'.buf.length ≤ b.length :=
+  h2_dispatch_terminates p hp (frameDec mx o) (frameDec_progress mx o) b
+
+/-- every turn that goes round again drained ≥ 9 bytes that were buffered -/
+theorem h2_again_turn_drains (p : Policy) (hp : p = srvPolicy ∨ p = cliPolicy) (dec : Nat → List UInt8 → DStep)
+    (hd : Progress dec) (c : Cfg) (ha : (turn p dec c).2 = true) :
+    (turn p dec c).1.buf.length + 9 ≤ c.buf.length ∧ 9 ≤ (dec c.calls c.buf).drained := by
+  have hs : p.Safe := by rcases hp with rfl | rfl; exact h2_policy_safe.1; exact h2_policy_safe.2.1
+  exact turn_measure p dec hs hd c ha
+
+/-- ErrAGAIN and a connection error END the Dispatch: that Decode call is its last one -/
+theorem h2_again_connerr_end_dispatch (p : Policy) (hp : p = srvPolicy ∨ p = cliPolicy) (dec : Nat → List UInt8 → DStep)
+    (c : Cfg) (k : Nat) (he : dec c.calls c.buf = .again k ∨ dec c.calls c.buf = .conn k) :
+    Returns p dec c ⟨c.buf.drop k, c.calls + 1⟩ := by
+  have hs : p.Safe := by rcases hp with rfl | rfl; exact h2_policy_safe.1; exact h2_policy_safe.2.1
+  have h2 : (turn p dec c).2 = false := by
+    rcases he with he | he <;> simp [turn, he, Policy.again, hs.1, hs.2]
+  have h1 : (turn p dec c).1 = ⟨c.buf.drop k, c.calls + 1⟩ := by
+    rcases he with he | he <;> simp [turn, he, DStep.drained]
+  have := Returns.done (p := p) (dec := dec) (c := c) h2
+  rwa [h1] at this
+
+/-- negation witness: a loop that CONTINUES after a connection error never returns (a connection error drains nothing) -/
+theorem h2_continue_after_connerr_diverges :
+    ¬ ∃ c', Returns { srvPolicy with againConn := true } (fun _ _ => DStep.conn 0) ⟨[1], 0⟩ c' := by
+  rintro ⟨c', h⟩
+  exact MosnVerif.Lemmas.H2ReadLoop.fixed_point_diverges { srvPolicy with againConn := true } (fun _ _ => DStep.conn 0) [1]
+    (fun k => by simp [turn, DStep.drained, Policy.again]) _ _ h rfl
+
+-- non-vacuity. A PING (8 bytes payload) behind which 3 bytes of the next header wait: frame, then ErrAGAIN
+def h2Ping : List UInt8 := [0,0,8, 6, 0, 0,0,0,0, 1,2,3,4,5,6,7,8]
+def okOrc : Orc := ⟨fun _ => .ok, fun _ => .ok⟩
+example : readFrame 16384 okOrc (h2Ping ++ [0,0,0]) = .frame 17 := by decide
+example : run srvPolicy (frameDec 16384 okOrc) 3 ⟨h2Ping ++ [0,0,0], 0⟩ = some ⟨[0,0,0], 2⟩ := by decide
+-- HEADERS (stream 1, no END_HEADERS, 1 byte) + CONTINUATION (END_HEADERS, 2 bytes): one group of 21 bytes
+def h2Group : List UInt8 := [0,0,1, 1, 0, 0,0,0,1, 0x82,  0,0,2, 9, 4, 0,0,0,1, 0x84, 0x86]
+example : readFrame 16384 okOrc h2Group = .frame 21 := by decide
+-- the same with only 0..8 bytes of the CONTINUATION header buffered: ErrAGAIN, nothing read out of range
+example : (List.range 9).all (fun n => readFrame 16384 okOrc (h2Group.take (10 + n)) == .again) = true := by decide
+-- the class the theorem excludes: a completeness test that forgets the offset (`data.Len() < frameHeaderLen`) lets the
+-- header read at offset 10 run past the 12 buffered bytes
+example : hdrOf ((h2Group.take 12).drop 10) = .oob := by decide
+-- payload length at / one above the read limit; a stream error consumes its frame, the loop goes on
+example : readFrame 8 okOrc h2Ping = .frame 17 ∧ readFrame 7 okOrc h2Ping = .conn := by decide
+example : run cliPolicy (frameDec 16384 ⟨fun _ => .stream, fun _ => .ok⟩) 4 ⟨h2Ping ++ h2Ping, 0⟩ = some ⟨[], 3⟩ := by decide
+-- continue-after-connection-error burns all its fuel
+example : run { srvPolicy with againConn := true } (frameDec 7 okOrc) 50 ⟨h2Ping, 0⟩ = none := by decide
+end h2loop
+
+/-! ## dubbo service-aware metadata: every risky site of the hessian walk lies behind the deferred recover
+(sites and domination regenerated from the AST of getServiceAwareMeta: Gen/C08DubboMeta) -/
+section dubbometa
+open MosnVerif.Model.DubboMeta MosnVerif.Gen.C08DubboMeta
+
+/-- **dubbo_meta_sites_recovered**: getServiceAwareMeta has a deferred recover and EVERY unchecked type assertion,
+index / bounded slice expression and call of a function of the package in it is dominated by that defer statement
+(it is a direct statement of a block and the site lies in a later statement of the same block). -/
+theorem dubbo_meta_sites_recovered : recoverPresent = true ∧ ∀ s ∈ riskySites, s.2.2 = true := by decide
+
+/-- **dubbo_meta_walk_no_panic**: for EVERY sequence of decoded fields (string, nil, any other type, decode error at
+every position), every announced argument count, both kinds of listener: the walk ends in `ok` or a decode error —
+never in a panic that leaves the function. -/
+theorem dubbo_meta_walk_no_panic (aware : Bool) (f : Nat → Fld) (nargs : Nat) : walk aware f nargs ≠ .panic := by
+  have hk : ∀ (x : Fld) (b : Bool) (k : WOut), k ≠ .panic → needStr x b k ≠ .panic := by
+    intro x b k hk
+    cases x <;> cases b <;> simp [needStr, hk]
+  have hs : ∀ (n p : Nat) (k : WOut), k ≠ .panic → skipArgs f p n k ≠ .panic := by
+    intro n
+    induction n with
+    | zero => intro p k hk; simpa [skipArgs] using hk
+    | succ n ih =>
+      intro p k hk
+      unfold skipArgs
+      split
+      · simp
+      · exact ih _ _ hk
+  have ht : typesNonString ≠ .panic := by decide
+  unfold walk
+  refine hk _ _ _ (hk _ _ _ (hk _ _ _ (hk _ _ _ ?_)))
+  cases aware
+  · simp
+  · simp only [Bool.not_true, Bool.false_eq_true, if_false]
+    cases f 4
+    · apply hs; split <;> simp
+    · exact ht
+    · exact ht
+    · simp
+
+-- non-vacuity: an int where the argument-type descriptor is expected is an error on an aware listener and never looked
+-- at on another one; a missing version (nil) is accepted; two arguments are skipped whatever their type
+example : walk true (fun i => if i = 4 then .other else .str) 0 = .err ∧
+    walk false (fun i => if i = 4 then .other else .str) 0 = .ok := by decide
+example : walk true (fun i => if i = 2 then .null else if i = 5 ∨ i = 6 then .other else .str) 2 = .ok := by decide
+example : walk true (fun i => if i < 6 then .str else .derr) 2 = .err := by decide
+example : riskySites.length = 2 ∧ uncheckedStringAsserts = 1 := by decide
+end dubbometa
 
 end MosnVerif.Props.C08
